@@ -28,7 +28,16 @@ def sort_effect(b, S, ev):
 
 def sort_table(prog, fids):
     A = sym.Analyzer(prog, opaque=[r"sort::.*", r".*::get_layout_mut", r".*::get_layout"])
-    return diag.table_for(prog, A, fids, sort_effect, write_pred=layout_write)
+    t = diag.table_for(prog, A, fids, sort_effect, write_pred=layout_write)
+    # comparators (functions and closures of sort.rs that return Ordering)
+    for fid, b in prog.bodies.items():
+        if b.file == "a2lfile/src/sort.rs" and (fid in fids or (b.parent and any(b.parent.startswith(mir.strip_generics(f)) or b.parent.startswith(f) for f in fids))):
+            rows = diag.ordering_rows(prog, A, fid)
+            if rows:
+                have = t.setdefault(re.sub(r"\{closure#\d+\}", "{closure}", mir.strip_generics(fid)), [])
+                have.extend(rows)
+                have.sort(key=lambda r: (r[0], r[1]))
+    return t
 
 
 def frame(chk, rule, prog, entry):
